@@ -561,7 +561,15 @@ class Ctx:
         for t in range(tries):
             assign = {}
             guided = bool(hv) and t < max(2, (2 * tries) // 3)
+            # partial concretisation: now and then leave a few unit vectors symbolic, so that the solver can steer
+            # them into a narrow target region while the rest of the system is concrete
+            free = set()
+            if guided and t >= 1 and len(unit_pairs) > 3 and t % 2 == 0:
+                for pr in rng.sample(unit_pairs, min(3, len(unit_pairs))):
+                    free.add(pr)
             for a, b in unit_pairs:
+                if (a, b) in free:
+                    continue
                 if float_exact:
                     # unit vectors whose squared norm and mutual dot products are exact in IEEE doubles, so that exact
                     # coincidences (antiparallel, zero component) survive the concrete replay
@@ -609,7 +617,7 @@ class Ctx:
                     rest.append(c2)
             if dead:
                 continue
-            r, vals = self._z3_check(rest, per_try_ms, True) if rest else ("sat", {})
+            r, vals = self._z3_check(rest, per_try_ms * (3 if free else 1), True) if rest else ("sat", {})
             if r == "sat":
                 out = dict(vals)
                 for n, v in assign.items():
